@@ -125,6 +125,13 @@ CHECKS = {
             'must leave every probe with zero weight on section k bit-identical.',
             'Gently bent trenches with 2..4|5 coordinates, one or two segments; uniform and linear models. Probes within 1 mm of an extent limit are skipped and counted.',
             'DESIGN.md section 3 C10'),
+    'C11': ('exploration', 'E1',
+            'bounded exhaustive enumeration of depth surfaces (every set of <= 2|3 additional value points on the lattice points of four polygons x every assignment from a 3-value set x min/max depth x cartesian / spherical incl. date-line and near-360 placements; an affine family over the same sets and over a large plate) with the local depth observed by bisection on membership through the public API',
+            'For every surface of the alphabet the local depth limit is recovered at every half-step lattice point inside or on the polygon by bisection on the tag along the vertical and compared with what the documentation promises: '
+            'the listed value at a listed point, the default at an unlisted corner, a listed value replacing the default at a corner, bounds by the smallest and largest nodal value everywhere, exact reproduction of affine data whatever the '
+            'triangulation, the effect of a value-less item listed first or last; in cartesian worlds the feature is additionally compared with Objects::Surface built directly from the documented node list.',
+            'Polygons, point sets and values as listed; spherical polygon edges are not probed. Two known findings: value listed at a corner with a zero coordinate (pinned by reference outputs), near-collinear value points on a diagonal in spherical coordinates (third-party triangulator).',
+            'DESIGN.md section 3 C11'),
 }
 NOT_YET = {}
 
